@@ -67,16 +67,13 @@ def run(tier, replay_file=None):
     if mc.violation:
         R.violation("spec:" + mc.violation, {"trace": mc.trace[:3000]})
     R.cov["states"], R.cov["transitions"] = mc.distinct, mc.generated
-    if not quick:
-        cv = tlc.run("Abm", dict(consts(4), L='0'), invariants=INVS, view="View", spec="Spec", coverage=True)
-        R.cov["tlc_actions"] = {k: v[1] for k, v in cv.coverage.items() if v[1] > 0 and k not in ("Init",)}
-        for must in ("Create", "DoDelete", "Configure", "Reset", "DoSetState"):
-            if cv.coverage.get(must, (0, 0))[1] == 0:
-                raise common.Machinery("action %s never taken in the exhaustive run (vacuous)" % must)
     # 2. spec -> code: all histories of length L (BFS) + long random ones (simulate), replayed with every
     #    query compared after every operation
     Lb = 4 if quick else 5
-    hs, st = gen.histories("Abm", consts(4 if quick else 5), Lb)
+    hs, st = gen.histories("Abm", consts(4), Lb)
+    if not quick:       # (5 ids x length 5 exhausts TLC's heap: 5 ids are enumerated to length 4)
+        hs5, _ = gen.histories("Abm", consts(5), 4)
+        hs = hs + hs5
     hs2, st2 = gen.histories("Abm", consts(14), 30 if quick else 60, simulate=60 if quick else 1500,
                              seed=common.seed() + 1, cache=False)
     R.cov["bfs_histories"], R.cov["sim_histories"] = len(hs), len(hs2)
@@ -93,6 +90,9 @@ def run(tier, replay_file=None):
             if len(R.violations) >= 20:
                 break
     R.cov["ops_replayed"] = n_ops
+    for must in ("Create", "Delete", "Configure", "Reset", "SetState"):       # vacuity (TLC's -coverage exhausts the heap on Abm.tla)
+        if not R.violations and not os.environ.get("VERIF_ONLY_TRACE") and n_ops.get(must, 0) == 0:
+            raise common.Machinery("operation %s never occurs in the generated behaviours (vacuous)" % must)
     R.sample([{k: v for k, v in h.items() if k != "q"} for h in (hs2[0] if hs2 else hs[0])][:12])
     R.sample(hs[len(hs) // 2][-1])
     # 2b. code -> spec: random operation sequences on the real Model, validated by TLC against AbmTrace.tla
@@ -135,5 +135,5 @@ def run(tier, replay_file=None):
     if abm_replay.replay(ctl, TYPES, 100, 2, {"q"}, SPAWN) is None:
         raise common.Machinery("negative control not rejected")
     R.assumptions += ["reference agents are subclasses of BPTK_Py.Agent registered through agent factories",
-                      "bounds: ids <= %d exhaustively (length %d), <= 14 ids in random histories" % (4 if quick else 5, Lb)]
+                      "bounds: ids <= 4 exhaustively to length %d%s, <= 14 ids in random histories" % (Lb, "" if quick else " and ids <= 5 to length 4")]
     return R.finish()
